@@ -143,7 +143,6 @@ MUTANTS = [
     M("fold2-replace-list", "model/solvegroup_swizzler_partsel.py", "SolveGroupSwizzlerPartsel.swizzle_field_l", "swizzle_node_l.append(e.build(btor))",
       "swizzle_node_l = [e.build(btor)]", ["C20"], "FOLD2"),
     M("st5-salted-hash", "model/rand_state.py", "RandState.mkFromSeed", "seed = f'{seed} : {strval}'", "seed = hash(strval)", ["C09"], "ST5"),
-    M("lw8-inherit-unary", "visitors/x_expr_evaluator.py", "XExprEvaluator.visit_expr_unary", "e.expr.accept(self)", "ModelVisitor.visit_expr_unary(self, e)", ["C02"], "LW8"),
     M("lw10-no-expr", "visitors/array_constraint_builder.py", "ArrayConstraintBuilder.visit_expr_array_sum", "self._expr = s", "pass", ["C01", "C02"], "LW10"),
     M("ft10-no-truncate", "model/field_array_model.py", "FieldArrayModel.post_randomize", "del self.field_l[int(self.size.get_val()):]", "pass", ["C04"], "FT10"),
     M("cv16-store-raw", "model/wildcard_binspec.py", "WildcardBinspec.__init__", "self.specs.append((s[0] & s[1], s[1]))", "self.specs.append((s[0], s[1]))", ["C19"], "CV16"),
